@@ -152,6 +152,9 @@ pub fn make_roller(dir: &Path, r: &RollSpec) -> anyhow::Result<Box<dyn Roll>> {
 #[derive(Debug)]
 pub struct FlakyRoller {
     pub inner: Box<dyn Roll>,
+    /// on a scripted failure the real roller runs first (the file is archived) and only then the error is reported -
+    /// a roller that fails in a follow-up step (upload, notification) after it moved the file
+    pub fail_after_moving: bool,
     pub fail: Vec<bool>,
     pub calls: AtomicUsize,
     pub failures: Arc<AtomicUsize>,
@@ -162,6 +165,9 @@ impl Roll for FlakyRoller {
         let i = self.calls.fetch_add(1, Ordering::SeqCst);
         if self.fail.get(i).copied().unwrap_or(false) {
             self.failures.fetch_add(1, Ordering::SeqCst);
+            if self.fail_after_moving {
+                self.inner.roll(file)?;
+            }
             anyhow::bail!("verif: scripted roller failure #{}", i);
         }
         self.inner.roll(file)
@@ -169,7 +175,11 @@ impl Roll for FlakyRoller {
 }
 
 pub fn make_flaky_policy(dir: &Path, t: &TrigSpec, r: &RollSpec, fail: &[bool], failures: &Arc<AtomicUsize>) -> anyhow::Result<Box<dyn Policy>> {
-    let roller = FlakyRoller { inner: make_roller(dir, r)?, fail: fail.to_vec(), calls: AtomicUsize::new(0), failures: failures.clone() };
+    make_flaky_policy_with(dir, t, r, fail, false, failures)
+}
+
+pub fn make_flaky_policy_with(dir: &Path, t: &TrigSpec, r: &RollSpec, fail: &[bool], fail_after_moving: bool, failures: &Arc<AtomicUsize>) -> anyhow::Result<Box<dyn Policy>> {
+    let roller = FlakyRoller { inner: make_roller(dir, r)?, fail_after_moving, fail: fail.to_vec(), calls: AtomicUsize::new(0), failures: failures.clone() };
     Ok(Box::new(CompoundPolicy::new(make_trigger(t), Box::new(roller))))
 }
 
